@@ -39,6 +39,16 @@ ASSUMPTIONS = [
     "default session (ISO 14229-1: `10 01` is mandatory) is proved to be such a run",
     "OEM hooks are represented by the list of 2-byte requests they send (send_raw through request_unsafe, reply ignored, an "
     "unanswered one raises MissingResponse); with the base ECU class --with-hooks repeats the request once on conditionsNotCorrect",
+    "replies the client refuses (Ans.illegal switched: helpers.parse_pdu raises IllegalResponse - NRC outside UDSErrorCodes, truncated "
+    "positive reply, reply of another service, positive reply echoing another sub-function; the ECU may have switched session or not) "
+    "are modelled as answers to probes, to stack-recovery requests, to the hooked attempt and to the ECUReset of --reset; in the "
+    "stateful model also to hook requests. Not modelled: which of the four kinds it is (the scanner does not distinguish them), what "
+    "ECU.update_state makes of the CONTENT of a refused reply (`62 f1 86 03` / `50 07 ..` change the client-side session: not compared "
+    "on cases with refused replies), refused replies to the pings of wait_for_ecu (the loop goes on like after a missing reply, "
+    "but 0.5 s earlier: the ping budget is exact for missing replies only; the harness never garbles pings)",
+    "scan_never_gives_up / scan_exact and their corollaries assume ResetLegal: with --reset the ECUReset is not answered with a "
+    "refused reply (otherwise the IllegalResponse leaves main: modelled as crashed, witnessed, tied); completeness holds with "
+    "refused probe replies as long as the scan does not give up (a refused reply inside a stack recovery is exit 1)",
 ]
 
 NRCS = [0x10, 0x11, 0x13, 0x22, 0x22, 0x24, 0x31, 0x33, 0x33, 0x7E, 0x7E, 0x7F, 0x21]
@@ -1358,13 +1368,23 @@ MANIFEST = {
                    "under --with-hooks (requests_only_dsc_reset_ping_hooks, skip_not_requested_any) and at most "
                    "sum_j 127^j * perProbe(j) requests (requests_bounded); the written rows are characterised (rows_match_report); "
                    "under an S3 session timeout completeness and the reported stack fail (witness theorems). "
+                   "Replies the client refuses (Ans.illegal switched; parse_pdu raises IllegalResponse) are part of the answer alphabet "
+                   "of both models on every path of the scanner (probe: `except Exception`, nothing recorded, recover_stack set; "
+                   "_recover_stack: exit 1; hooked attempt: the exception leaves set_session before the post hook; ECUReset: the "
+                   "exception leaves main): illegal_never_reported (a session answered only with refused replies is neither reported "
+                   "nor listed as identified, no row), illegal_recovers_stack (after a refused probe reply the next probe is prepared by "
+                   "a full stack recovery, so a silently switched session cannot leak: scan_state_tracking holds unchanged for every "
+                   "ECU), scan_sound / scan_complete unchanged, scan_complete_no_refused. "
                    "Tied to the code by running the real SessionsScanner.main() with a real ECU/UDSClient on an in-process "
                    "graph ECU under virtual time and comparing result, written session_transition rows, exit status, final "
                    "session and the exact request sequence seen by the ECU; the specification is evaluated on what the real "
                    "scanner reported. Stateful families (S3 timer by request count and by virtual time, security-locked "
                    "transitions, ResponsePending frames, scripted busyRepeatRequest / lost requests, max_retry 0..2, hooks, "
                    "reset) drive the real scanner against the stateful model on result, rows, exit, ECU and client session and "
-                   "the exact wire trace; every graph case is also run through the stateful model (twin check)."),
+                   "the exact wire trace; every graph case is also run through the stateful model (twin check). Graph ECUs answer "
+                   "edges, hooked attempts and the ECUReset with refused replies of four kinds (`7f 10 80` / `7f 10 23`, `50`, "
+                   "`7f 22 31` / `62 f1 86 03`, `50 07 ..`), switched or not; stateful ECUs garble replies by script (instead of "
+                   "handling / after handling the request, hook requests included)."),
     "level_note": ("Trusted: Lean kernel (axioms propext, Quot.sound, Classical.choice), the harness and its graph ECU, the "
                    "virtual-time loop. The ECU class is a deterministic session graph (answers depend on the current "
                    "session and on whether the session hook preceded the request); responsePending handling belongs to C04; OEM "
